@@ -11,6 +11,11 @@
 
 package z80
 
+// The fields of CPU the contracts speak about.  A field added later is
+// "unmodelled": a free unknown of every pre-state, havocked by every call,
+// never frame-checked.
+//@ fields CPU States Memory IO RETNHandler RETIHandler Interrupt BreakPoints HALT
+
 // ---------------------------------------------------------------- decode + execute
 
 //@ func (cpu *CPU) executeOne()
@@ -343,3 +348,89 @@ package z80
 //@ func (cpu *CPU) decU16(a uint16) (r uint16)
 //@   props C03
 //@   ensures r == a-1
+
+// ---------------------------------------------------------------- bundled memory and port types (memio.go)
+//
+// Each method is specified over the whole abstract view of the store (every
+// address), so that a change corrupting other cells fails.  These contracts
+// are also the proof that the types refine the Memory / IO interface
+// contract assumed everywhere else (plain byte store, total).
+
+//@ func (dm DumbMemory) Get(addr uint16) (v uint8)
+//@   layer P
+//@   props C15 C12
+//@   ensures v == vsSliceView(dm, addr)
+
+//@ func (dm DumbMemory) Set(addr uint16, value uint8)
+//@   layer P
+//@   props C15 C12
+//@   ensures vsForall16(func(k uint16) bool { return vsSliceView(dm, k) == vsIteU8(k == addr && int(addr) < len(dm), value, vsSliceView(old(dm), k)) })
+//@   modifies contents(dm)
+
+//@ func (dm DumbMemory) Put(addr uint16, data []uint8) (r DumbMemory)
+//@   layer P
+//@   props C15
+//@   requires int(addr)+len(data) <= len(dm)
+//@   ensures len(r) == len(dm)
+//@   ensures vsForallIdx(func(i int) bool { return i < 0 || i >= len(dm) || dm[i] == vsPutByte(old(dm), int(addr), data, i) })
+//@   ensures vsForallIdx(func(i int) bool { return i < 0 || i >= len(dm) || r[i] == dm[i] })
+//@   modifies contents(dm)
+
+//@ func (dio DumbIO) In(addr uint8) (v uint8)
+//@   layer P
+//@   props C15 C12
+//@   ensures v == vsSliceView8(dio, addr)
+
+//@ func (dio DumbIO) Out(addr uint8, value uint8)
+//@   layer P
+//@   props C15 C12
+//@   ensures vsForall8(func(k uint8) bool { return vsSliceView8(dio, k) == vsIteU8(k == addr && int(addr) < len(dio), value, vsSliceView8(old(dio), k)) })
+//@   modifies contents(dio)
+
+//@ func (mm MapMemory) Get(addr uint16) (v uint8)
+//@   layer P
+//@   props C15 C12
+//@   ensures v == vsMapView(mm, addr)
+
+//@ func (mm MapMemory) Set(addr uint16, v uint8)
+//@   layer P
+//@   props C15
+//@   requires mm != nil
+//@   ensures vsForall16(func(k uint16) bool { return vsMapView(mm, k) == vsIteU8(k == addr, v, vsMapView(old(mm), k)) && vsMapHas(mm, k) == (k == addr || vsMapHas(old(mm), k)) })
+//@   modifies contents(mm)
+
+//@ func (mm MapMemory) Put(addr uint16, data []uint8) (r MapMemory)
+//@   layer P
+//@   props C15
+//@   requires mm != nil && len(data) <= 65536
+//@   ensures vsForall16(func(k uint16) bool { return vsMapView(mm, k) == vsPutView(old(mm), addr, data, k) })
+//@   modifies contents(mm)
+//@ loop #0 vars a uint16 (addr), i int (rangeindex)
+//@   invariant -1 <= i && i < len(data) && a == addr+uint16(i+1)
+//@   invariant vsForall16(func(k uint16) bool { return vsMapView(mm, k) == vsPutViewN(old(mm), addr, data, k, i+1) })
+//@   modifies contents(mm)
+
+//@ func (mm MapMemory) Clone() (cl MapMemory)
+//@   layer P
+//@   props C15
+//@   ensures cl != nil
+//@   ensures vsForall16(func(k uint16) bool { return vsMapHas(cl, k) == vsMapHas(mm, k) && vsMapAt(cl, k) == vsMapAt(mm, k) })
+//@   modifies nothing
+//@ loop #0 vars cl MapMemory, visited [65536]bool
+//@   invariant cl != nil
+//@   invariant vsForall16(func(k uint16) bool { return vsMapHas(cl, k) == visited[k] && (!visited[k] || vsMapHas(mm, k) && vsMapAt(cl, k) == vsMapAt(mm, k)) })
+//@   modifies contents(cl)
+
+//@ func (mm MapMemory) Clear()
+//@   layer P
+//@   props C15
+//@   ensures vsForall16(func(k uint16) bool { return !vsMapHas(mm, k) })
+//@   modifies contents(mm)
+//@ loop #0 vars visited [65536]bool
+//@   invariant vsForall16(func(k uint16) bool { return !visited[k] || !vsMapHas(mm, k) })
+//@   modifies contents(mm)
+
+//@ func (mm MapMemory) Equal(a0 interface{}) (r bool)
+//@   layer P
+//@   props C15
+//@   ensures r == vsEqualSpec(mm, a0)
